@@ -542,6 +542,9 @@ func (in *Interp) sliceBounds(lo, hi, n *smt.Term) {
 func (in *Interp) sbRead(sb *SymBytes, idx *smt.Term) *smt.Term {
 	pos := smt.BVAdd(sb.Off, idx)
 	if sb.Buf.Arr != nil {
+		if sb.Buf.Base != nil {
+			pos = smt.BVSub(pos, sb.Buf.Base)
+		}
 		return smt.Select(sb.Buf.Arr, pos)
 	}
 	s := sb.Buf.Str
@@ -556,7 +559,11 @@ func (in *Interp) sbWrite(sb *SymBytes, idx *smt.Term, v *smt.Term) {
 	if sb.Buf.Arr == nil {
 		in.end("unmodelled", "write into string-backed symbolic bytes at %s", in.where())
 	}
-	sb.Buf.Arr = smt.StoreArr(sb.Buf.Arr, smt.BVAdd(sb.Off, idx), v)
+	pos := smt.BVAdd(sb.Off, idx)
+	if sb.Buf.Base != nil {
+		pos = smt.BVSub(pos, sb.Buf.Base)
+	}
+	sb.Buf.Arr = smt.StoreArr(sb.Buf.Arr, pos, v)
 }
 
 // bytesOfString: []byte(s).
@@ -588,7 +595,7 @@ func (in *Interp) SymBytesOfStr(s *smt.Term) *SliceV {
 	if !n.Const {
 		in.assumeOnce(smt.BVSle(smt.BV(0, 64), n))
 	}
-	return &SliceV{SB: &SymBytes{Buf: &SymBuf{Str: s}, Off: smt.BV(0, 64), Len: n, Cap: n}}
+	return &SliceV{SB: &SymBytes{Buf: &SymBuf{Str: s, Origin: s}, Off: smt.BV(0, 64), Len: n, Cap: n}}
 }
 
 func (in *Interp) assumeOnce(c *smt.Term) {
@@ -611,7 +618,11 @@ func (in *Interp) stringOfBytes(s *SliceV) *smt.Term {
 			return smt.StrSubstr(sb.Buf.Str, smt.BV2Int(sb.Off), smt.BV2Int(sb.Len))
 		}
 		// array-backed: opaque string function of (array, off, len)
-		return smt.UF("bytes2str", []string{"(Array (_ BitVec 64) (_ BitVec 8))", "(_ BitVec 64)", "(_ BitVec 64)"}, &smt.Term{K: smt.KStr}, sb.Buf.Arr, sb.Off, sb.Len)
+		off := sb.Off
+		if sb.Buf.Base != nil {
+			off = smt.BVSub(off, sb.Buf.Base)
+		}
+		return smt.UF("bytes2str", []string{"(Array (_ BitVec 64) (_ BitVec 8))", "(_ BitVec 64)", "(_ BitVec 64)"}, &smt.Term{K: smt.KStr}, sb.Buf.Arr, off, sb.Len)
 	}
 	if s.Arr == nil || s.Len == 0 {
 		return smt.StrLit("")
